@@ -10,6 +10,7 @@ lib/dapdrive.py                  process driver
 import json
 import os
 import re
+import socket
 import sys
 import threading
 import time
@@ -40,15 +41,24 @@ def pinned(rep, prop):
         devs |= set(UNWRAP_GROUP)
     if "SignalPanicsDebugThread" in rep.open:
         devs.add("SignalPanicsDebugThread")
+    if "DeadDebugThreadFailsShutdown" in rep.open:
+        devs.add("DeadThreadFailsJoin")
+    if "PauseWhileLaunchingPanics" in rep.open or "LaunchWithoutConfigPanics" in rep.open:
+        devs.add("HandlerPanics")
+    if "LaunchWithoutConfigPanics" in rep.open:
+        devs.add("HandlerPanicPoisons")
     return sorted(devs)
 
 
 def scenarios(rnd, reps):
     out, i = [], 0
     for rep in range(reps):
-        for state in ("none", "idle", "running", "paused", "busy"):
-            for mode in ("shutdown_exit", "close", "shutdown_close"):
-                for order in (("no_dap",) if state == "none" else ("dap_never", "dap_drop_first") if state == "busy" else ("dap_never", "dap_first", "dap_between", "dap_drop_first")):
+        for state in ("none", "idle", "running", "paused", "busy", "launchpause", "notoml", "portbusy"):
+            for mode in ("shutdown_exit", "close", "shutdown_close", "shutdown_request_exit"):
+                if mode == "shutdown_request_exit" and state not in ("none", "idle", "paused"):
+                    continue
+                for order in (("no_dap",) if state in ("none", "portbusy") else ("dap_never",) if state in ("launchpause", "notoml") or mode == "shutdown_request_exit"
+                              else ("dap_never", "dap_drop_first") if state == "busy" else ("dap_never", "dap_first", "dap_between", "dap_drop_first")):
                     if order == "dap_between" and mode == "close":
                         continue
                     i += 1
@@ -65,7 +75,7 @@ def panics(stderr):
         r = re.search(r"/registry/src/[^/]+/([^/]+?)-\d[^/]*/(.*)$", f)
         if r:
             f = "%s/%s" % (r.group(1), r.group(2))
-        out.append((m.group(1), "%s|%s" % (f, m.group(3).strip())))
+        out.append((m.group(1), "%s|%s" % (f, re.sub(r"on port \d+", "on port N", m.group(3).strip()))))
     return out
 
 
@@ -73,7 +83,14 @@ def run_one(mos, sc, bound):
     d = V.fresh_dir("C20-run-%d" % sc["id"])
     src = D.write_project(d, BUSY_SOURCE if sc["state"] == "busy" else SOURCE)
     trace = os.path.join(d, "life.ndjson")
-    port = D.free_port()
+    port, squat = D.free_port(), None
+    if sc["state"] == "notoml":
+        os.remove(os.path.join(d, "mos.toml"))       # the server runs in a directory without configuration
+    if sc["state"] == "portbusy":
+        squat = socket.socket()                      # somebody else already listens on the debug port
+        squat.bind(("127.0.0.1", 0))
+        squat.listen(1)
+        port = squat.getsockname()[1]
     m = D.MosLsp(mos, d, port, env={"MOS_VERIF_TRACE": trace})
     obs = {"id": sc["id"], "state": sc["state"], "mode": sc["mode"], "order": sc["order"], "setup": "ok", "shutdownReply": True}
     dap = None
@@ -81,11 +98,19 @@ def run_one(mos, sc, bound):
         if not m.initialize():
             obs["setup"] = "LSP initialize failed"
         dl = sc["delays"]
-        if sc["state"] != "none" and obs["setup"] == "ok":
+        if sc["state"] == "portbusy":
+            time.sleep(0.15)
+        if sc["state"] not in ("none", "portbusy") and obs["setup"] == "ok":
             dap = D.Dap(port)
             r = dap.request("initialize", {"adapterID": "mos", "linesStartAt1": True, "columnsStartAt1": True}, 5)
             if not (r and r.get("success")):
                 obs["setup"] = "DAP initialize failed"
+            if sc["state"] in ("launchpause", "notoml") and obs["setup"] == "ok":
+                # a request whose handler may panic: pause between launch and configurationDone; launch without a mos.toml
+                dap.request("launch", {"workspace": d, "testRunner": {"testCaseName": "t"}}, 2)
+                if sc["state"] == "launchpause":
+                    dap.request("pause", {"threadId": 1}, 2)
+                time.sleep(0.1)
             if sc["state"] in ("running", "paused", "busy") and obs["setup"] == "ok":
                 r = dap.request("launch", {"workspace": d, "testRunner": {"testCaseName": "t"}}, 5)
                 ok = r and r.get("success")
@@ -115,13 +140,17 @@ def run_one(mos, sc, bound):
             dap_leave("drop")
             time.sleep(dl[1])
         t_end = None
-        if sc["mode"] in ("shutdown_exit", "shutdown_close"):
+        if sc["mode"] in ("shutdown_exit", "shutdown_close", "shutdown_request_exit"):
             obs["shutdownReply"] = m.request("shutdown", None, 3) is not None
             time.sleep(dl[2])
             if sc["order"] == "dap_between":
                 dap_leave("disconnect")
                 time.sleep(dl[3])
-        if sc["mode"] == "shutdown_exit":
+        if sc["mode"] == "shutdown_request_exit":
+            # not "shutdown followed by exit": another request in between is a protocol error of the client
+            m.send({"jsonrpc": "2.0", "id": 4711, "method": "textDocument/hover", "params": {}})
+            time.sleep(0.05)
+        if sc["mode"] in ("shutdown_exit", "shutdown_request_exit"):
             m.notify("exit", None)
         else:
             m.close_stdin()
@@ -140,8 +169,10 @@ def run_one(mos, sc, bound):
         m.kill()
         if dap is not None:
             dap.close()
+        if squat is not None:
+            squat.close()
     time.sleep(0.02)
-    obs["portAfter"] = D.port_listening(port)
+    obs["portAfter"] = D.port_listening(port)          # (the squatter of the portbusy state is closed by now)
     obs["stderr"] = m.stderr_text()[-1500:]
     ps = panics(m.stderr_text())
     obs["panicAt"] = ([p for t, p in ps if t == "main"] or [""])[0]
@@ -183,6 +214,9 @@ def design_level(rep, devs):
                        ("cex_accept", "JoinBlockedInAccept + UnboundedJoin: with the unwrap repaired, Terminates fails (join waits on a thread in accept())"),
                        ("cex_late", "SessionIgnoresFlag + UnboundedJoin: a session registered after the handlers were invoked keeps the process alive"),
                        ("cex_select", "SignalPanicsDebugThread: the debug thread dies on the shutdown signal"),
+                       ("cex_deadjoin", "HandlerPanics + DeadThreadFailsJoin: a debug thread that died earlier makes shutdown exit 101"),
+                       ("cex_poison", "HandlerPanicPoisons: a handler panic under the context lock takes the main thread down at its next message"),
+                       ("cex_handler", "HandlerPanics: a DAP request can kill the debug thread"),
                        ("cex_busy", "UnboundedJoin: a session thread busy in a step that never returns cannot be joined"),
                        ("cex_rendezvous", "hypothetical RendezvousSignal: `shutdown` cannot complete while the session thread is busy (Terminates fails)"),
                        ("vac_busy", "a behaviour that reaches `shutdown` with the session thread busy in a step exists"),
@@ -191,6 +225,10 @@ def design_level(rep, devs):
         rep.add_tlc(r)
         if not (r.invariant_violated or r.rc in (12, 13)):
             raise V.ToolError("expected counterexample missing (%s): %s\n%s" % (name, what, V.tail(r.out, 20)))
+    r = V.tlc(mc, cfg=os.path.join(SPEC, "MC_Shutdown_tolerant_join.cfg"), workers=2, timeout=600, tag="C20-mc-tolerant")
+    rep.add_tlc(r)
+    if r.rc != 0:
+        raise V.ToolError("MC_Shutdown_tolerant_join (a dead debug thread alone must not spoil the exit) failed:\n" + V.tail(r.out, 30))
     rep.notes.append("expected counterexamples found: unwrap panic (safety), join blocked in accept (liveness lasso), late session (liveness lasso), 2 vacuity witnesses")
 
 
@@ -248,7 +286,7 @@ def main(tier):
         if v["id"] >= 10 ** 6:
             continue
         if v["verdict"] == "info":
-            replayed += int(v["why"])
+            replayed += int(v["why"]) if v["dev"] == "LifeEventsReplayed" else 0
             continue
         o = results[v["id"]]
         rep.verdict(v, {"scenario": [s for s in scs if s["id"] == v["id"]][0], "observation": {k: o.get(k) for k in ("rc", "ms", "portAfter", "panicAt", "others", "blocked", "threads", "life", "stderr")},
